@@ -46,6 +46,16 @@ func c09Nested(outerRetract bool, nestedKind int, k Term) Term {
 	return vDisj(vConj(gen, rAtomEmit.Apply(x), c09Simple(nestedKind, k), xFail), xTrue)
 }
 
+// c09Nested2: as c09Nested with two nested operations per solution.
+func c09Nested2(outerRetract bool, k1, k2 int, a, b Term) Term {
+	x := NewVariable()
+	var gen Term = c09P.Apply(x)
+	if outerRetract {
+		gen = rAtomRetract.Apply(c09P.Apply(x))
+	}
+	return vDisj(vConj(gen, rAtomEmit.Apply(x), c09Simple(k1, a), c09Simple(k2, b), xFail), xTrue)
+}
+
 type c09Step struct {
 	goal Term
 	desc string
@@ -146,6 +156,7 @@ func c09Match(implRuns []vImplRun, implListings [][]Term, ref c09RefOut) bool {
 //   inst 0: 2 initial clauses, then 2 simple ops.            inst 1: 1 nested-in-call op, then 1 simple op.
 //   inst 2: 1 nested-in-retract op, then 1 simple op.        inst 3: 3 simple ops (thorough).
 //   inst 4: nested-in-call then nested-in-retract (thorough). inst 5: simple, nested-in-retract, simple (thorough).
+//   inst 6: one enumeration (call or retract) with two nested operations per solution.
 func VH_C09(vm *VM, inst int) {
 	var trace []Term
 	vRegisterEmit(vm, &trace)
@@ -183,6 +194,9 @@ func VH_C09(vm *VM, inst int) {
 		simple("1", 3)
 		nested("2", true, 4)
 		simple("3", 5)
+	case 6: // two nested operations per solution of an open retract / call (ops: assertz, asserta, retract(p(K)))
+		outer := choice("outer", 2) == 1
+		steps = append(steps, c09Step{goal: c09Nested2(outer, choice("n1", 3), choice("n2", 3), c09K(3), c09K(4)), desc: "nested2"})
 	}
 	db := &rDB{}
 	for _, cl := range init {
